@@ -1,1 +1,56 @@
-fn main(){}
+//! simmem — runs the C13 program catalogue (sim/vprog) under Miri. Miri is the
+//! simulator here: it executes the whole program, including std threads,
+//! under its own seeded scheduler, checks every access against allocation
+//! bounds and liveness, detects data races and double frees, emulates weak
+//! memory, and reports leaks at exit.
+//!
+//!   simmem list                         (natively) the catalogue, one `<index> <name>` per line
+//!   simmem run [<index>:]<name>...      (under Miri) run the named programs
+//!
+//! Every program is announced with `BEGIN <index> <name>` before it runs and
+//! `END <index> returned|panicked` after; a Miri diagnostic ends the process,
+//! and the driver attributes it to the program in flight.
+
+use std::io::Write;
+use vprog::{catalogue, run, Outcome};
+
+fn main() {
+    // the documented panics are expected: keep them quiet
+    std::panic::set_hook(Box::new(|_| {}));
+    let args: Vec<String> = std::env::args().collect();
+    match args.get(1).map(String::as_str) {
+        Some("list") => {
+            // (run natively: building the whole catalogue is slow under Miri)
+            for (i, p) in catalogue().iter().enumerate() {
+                println!("{i} {}", p.name());
+            }
+        }
+        Some("run") => {
+            // `run <index>:<name>...`: programs are addressed by name; the index is only echoed
+            for a in &args[2..] {
+                let (idx, name) = a.split_once(':').unwrap_or(("0", a.as_str()));
+                let Some(p) = vprog::find(name) else {
+                    eprintln!("unknown program {name}");
+                    std::process::exit(2);
+                };
+                one(idx.parse().unwrap_or(0), &p);
+            }
+        }
+        _ => {
+            eprintln!("usage: simmem list | run [<index>:]<name>...");
+            std::process::exit(2);
+        }
+    }
+    println!("DONE");
+}
+
+fn one(i: usize, p: &vprog::Prog) {
+    println!("BEGIN {i} {}", p.name());
+    let _ = std::io::stdout().flush();
+    let o = run(p);
+    match o {
+        Outcome::Returned(v) => println!("END {i} returned {v}"),
+        Outcome::Panicked(m) => println!("END {i} panicked {}", m.lines().next().unwrap_or("")),
+    }
+    let _ = std::io::stdout().flush();
+}
